@@ -104,6 +104,10 @@ SU_vector implementation
 SQUIDS_THREAD_LOCAL //one cache per thread if supported
 #endif
 detail::cache<SU_vector::mem_cache_entry,32> SU_vector::storage_cache[SQUIDS_MAX_HILBERT_DIM+1];
+#ifdef SQUIDS_THREAD_LOCAL
+SQUIDS_THREAD_LOCAL bool SU_vector::storage_cache_closed=false;
+SQUIDS_THREAD_LOCAL SU_vector::mem_cache_guard SU_vector::storage_cache_guard;
+#endif
 #endif
 /*
 -----------------------------------------------------------------------
